@@ -1,16 +1,26 @@
 #!/bin/bash
-# Extract the Coq model to OCaml and build the model runner.  Needs coq/ built (make).
+# Extract the Coq model to OCaml and build the model runners.  Needs coq/ built (make).
+#   modelrun : list-level model of the whole crate + oracle (extract/Extract.v, ocaml/driver.ml)
+#   rawrun   : cell-level model of the fixed-capacity vector (extract/ExtractRaw.v, ocaml/rawdriver.ml)
 set -eu
 OUT=/verif/.cache/ocaml
 mkdir -p $OUT
 cd $OUT
-# re-extract only when a model/gen/spec .vo is newer than the binary
-if [ -x modelrun ] && [ -z "$(find /verif/coq/model /verif/coq/gen /verif/coq/spec /verif/coq/base /verif/coq/extract /verif/ocaml -newer modelrun \( -name '*.vo' -o -name '*.ml' -o -name 'Extract.v' \) 2>/dev/null | head -1)" ]; then
+# re-extract only when a model/gen/spec .vo is newer than the binaries
+if [ -x modelrun ] && [ -x rawrun ] && [ -z "$(find /verif/coq/model /verif/coq/gen /verif/coq/spec /verif/coq/base /verif/coq/extract /verif/ocaml -newer modelrun \( -name '*.vo' -o -name '*.ml' -o -name 'Extract*.v' \) 2>/dev/null | head -1)" ] \
+   && [ -z "$(find /verif/coq/model /verif/coq/gen /verif/coq/base /verif/coq/extract /verif/ocaml -newer rawrun \( -name '*.vo' -o -name '*.ml' -o -name 'Extract*.v' \) 2>/dev/null | head -1)" ]; then
   exit 0
 fi
-rm -f model.ml model.mli
+rm -f model.ml model.mli rawmodel.ml rawmodel.mli
 timeout 600 coqc -Q /verif/coq ML /verif/coq/extract/Extract.v > extract.log 2>&1 || { cat extract.log; exit 1; }
+timeout 600 coqc -Q /verif/coq ML /verif/coq/extract/ExtractRaw.v > extract_raw.log 2>&1 || { cat extract_raw.log; exit 1; }
 cp /verif/ocaml/driver.ml driver.ml
+cp /verif/ocaml/rawdriver.ml rawdriver.ml
+( timeout 900 ocamlfind ocamlopt -O2 -package zarith -linkpkg -w -a rawmodel.mli rawmodel.ml rawdriver.ml -o rawrun > ocaml_raw.log 2>&1 \
+ || timeout 900 ocamlfind ocamlopt -package zarith -linkpkg -w -a rawmodel.mli rawmodel.ml rawdriver.ml -o rawrun > ocaml_raw.log 2>&1 \
+ || { cat ocaml_raw.log; exit 1; } ) &
+P1=$!
 timeout 900 ocamlfind ocamlopt -O2 -package zarith -linkpkg -w -a model.mli model.ml driver.ml -o modelrun > ocaml.log 2>&1 \
  || timeout 900 ocamlfind ocamlopt -package zarith -linkpkg -w -a model.mli model.ml driver.ml -o modelrun > ocaml.log 2>&1 \
  || { cat ocaml.log; exit 1; }
+wait $P1
